@@ -440,18 +440,48 @@ def _rpu_yield(e, directory):
 @contract("stepup/core/workflow.py::Workflow.nglob_registrations", props=[], verify=False,
           note="yields (row id, NamedGlob, Step) triples of attached steps")
 class nglob_registrations_assumed:
-    result = lambda: ty.SeqOf(ty.TupleOf(ty.Int, ty.Make(lambda n: _NGStub(n)), ty.Opaque("StepRef")))
+    result = lambda: ty.Make(_registrations)
     modifies = []
 
 
-class _NGStub:
-    """A NamedGlob as far as relevant_paths_under uses it: files() is some sequence of paths."""
+def _registrations(name):
+    """The listing: (row id, NamedGlob, Step) triples; the j-th triple is a function of j (the same objects however
+    often the list is read), and the row id identifies the registration."""
+    c = cur()
+    n = c.fresh(name + ".len", tm.INT)
+    c.pc.append(tm.Ge(n, tm.mk_int(0)))
+    ids = c.fresh(name + ".ids", tm.arr(tm.INT, tm.INT))
+    steps = ty.Opaque("StepRef").arr_fresh(name + ".steps", tm.INT)
+    reg_of_id = c.decls.fun("nglob.reg_of_id", [tm.INT], tm.INT)
 
-    def __init__(self, name):
+    def elem(j):
+        i = tm.Select(ids, j, tm.INT)
+        ng = _NGStub(name, reg=reg_of_id(i))
+        return (sym.wrap_int(i), ng, ty.Opaque("StepRef").arr_select(steps, j))
+
+    return sym.SymSeq(elem, n, name=name)
+
+
+class _NGStub:
+    """A stored NamedGlob: pattern, substitutions and recorded matches are functions of the registration (the row
+    of the nglob table); files() is some sequence of paths whose set is the recorded match set."""
+
+    def __init__(self, name, reg=None):
+        c = cur()
         self.name = name
+        # identifies the registration this object was loaded from
+        self.reg = reg if reg is not None else c.fresh(c.fresh_name(name + ".reg"), tm.INT)
+        d = c.decls
+        c.decls.sort("MatchSet")
+        c.decls.sort("Subs")
+        self.pattern = wrap_str(d.fun("nglob.pattern_of", [tm.INT], STR)(self.reg))
+        self.subs = sym.SymOpaque(d.fun("nglob.subs_of", [tm.INT], "Subs")(self.reg))
+        self.mset = d.fun("nglob.recorded_of", [tm.INT], "MatchSet")(self.reg)
 
     def files(self):
-        return ty.SeqOf(ty.Str).fresh(cur().fresh_name("ng.files"))
+        q = ty.SeqOf(ty.Str).fresh(cur().fresh_name("ng.files"))
+        q.mset = self.mset
+        return q
 
 
 def _rpu_finish(c, outcome, args):
